@@ -60,9 +60,23 @@ def configs(rng, df, addr, decoys):
     other_df = rng.choice([d for d in DFS + [19, 24] if d != df])
     unrelated = addr ^ (1 << rng.randrange(24))
     decoy = decoys[0] if decoys else unrelated
-    dfc = [("absent", None), ("empty", []), ("shown", [df]), ("other", [other_df]), ("other+shown", [other_df, df])]
+    # longer lists in arbitrary order, the shown value at a random position (a filter is a set, not a sorted list)
+    others = [d for d in DFS + [19, 24] if d != df]
+    rng.shuffle(others)
+    many_df = others[: rng.randrange(2, 7)]
+    many_df_shown = list(many_df)
+    many_df_shown.insert(rng.randrange(len(many_df_shown) + 1), df)
+    many_ac = []
+    while len(many_ac) < rng.randrange(2, 9):
+        a = rng.choice([rng.randrange(1 << 24), addr ^ (1 << rng.randrange(24)), rng.randrange(16), (1 << 24) - 1 - rng.randrange(16)])
+        if a != addr and a not in many_ac:
+            many_ac.append(a)
+    many_ac_shown = list(many_ac)
+    many_ac_shown.insert(rng.randrange(len(many_ac_shown) + 1), addr)
+    dfc = [("absent", None), ("empty", []), ("shown", [df]), ("other", [other_df]), ("other+shown", [other_df, df]),
+           ("many", many_df), ("many+shown", many_df_shown)]
     acc = [("absent", None), ("empty", []), ("shown", [addr]), ("decoy", [decoy]), ("unrelated", [unrelated]),
-           ("decoy+shown", [decoy, addr])]
+           ("decoy+shown", [decoy, addr]), ("shown+decoy", [addr, decoy]), ("many", many_ac), ("many+shown", many_ac_shown)]
     for dn, dv in dfc:
         for an, av in acc:
             yield dn, dv, an, av
@@ -172,8 +186,8 @@ def worker(args):
     rep.assumptions = ASSUMPTIONS
     rng = random.Random((seed << 8) ^ shard ^ 0xC11)
     per_cell = 6 if tier == "quick" else 600
-    dfn = ["absent", "empty", "shown", "other", "other+shown"]
-    acn = ["absent", "empty", "shown", "decoy", "unrelated", "decoy+shown"]
+    dfn = ["absent", "empty", "shown", "other", "other+shown", "many", "many+shown"]
+    acn = ["absent", "empty", "shown", "decoy", "unrelated", "decoy+shown", "shown+decoy", "many", "many+shown"]
     rep.extra["mandatory"] = [f"cell:DF{df}:df={d}:ac={a}" for df in DFS for d in dfn for a in acn] + \
         ["cell:undecodable:bad-parity", "cell:undecodable:not-decoded", "cell:undecodable:truncated", "path:cli", "path:toml"]
     cmds = build(rng, per_cell)
